@@ -224,7 +224,7 @@ fn run_gen(k: usize, b: &gram::Built, lexer: &StubLexer, hash_seed: u64, clock: 
                 .collect();
             recs.push(Rec { pidx: pidx.0, ridx: ridx.0, span: rr.span, args, param: rr.tag });
         }
-        ActRun { value: v, errors, recs, notes }
+        ActRun { value: v, errors, lex_errors: 0, recs, notes }
     })
 }
 
